@@ -19,7 +19,10 @@ type Case struct {
 	// thunder-managed fallback resolver
 	Ext      *ExtInfo `json:"ext,omitempty"`
 	Fallback bool     `json:"use_fallback,omitempty"`
-	Origin   string   `json:"origin"`
+	// Panic: every filter / sort field function panics; the query runs in a child process and the oracle is
+	// "the request fails, the process survives" (not compared with the model)
+	Panic  bool   `json:"panic,omitempty"`
+	Origin string `json:"origin"`
 }
 
 var words = []string{"can", "Man", "cannot", "so ban", "socan", "x y", "", "CAN", "a\"b", "jan", "Zed", "zed", "tab\there", "aan", "b", "B",
@@ -54,6 +57,10 @@ func genItems(r *vh.Rng, field string, walk bool) []Item {
 	items := make([]Item, 0, n)
 	used := map[string]bool{}
 	tieRange := 1 + r.Intn(6)
+	// numeric sort values come from one of three families per case and attribute: small values with many
+	// ties; a cluster around a boundary of some narrower or lossy representation (2^24, 2^31, 2^32, 2^53, 2^63,
+	// the ends of the range, nanosecond timestamps) whose members differ only in the low bits; wide values
+	nGen, uGen, fGen := genInt64(r, tieRange), genUint64(r, tieRange), genFloat64(r)
 	for len(items) < n {
 		var key string
 		if field == "itemsS" {
@@ -80,23 +87,74 @@ func genItems(r *vh.Rng, field string, walk bool) []Item {
 		for a := 0; a < 3; a++ {
 			it.T[a] = r.Pick(words)
 		}
-		it.N[0] = int64(r.Intn(tieRange))
-		if r.Chance(10) {
-			it.N[0] = int64(r.Intn(2000000)) - 1000000
-		}
+		it.N[0] = nGen()
 		it.N[1] = int64(r.Intn(3)) - 1
 		it.S = r.Pick(sortStrings)
-		it.U = uint64(r.Intn(tieRange))
-		if r.Chance(15) {
-			it.U = r.U64() | 1<<63 // above MaxInt64: must compare unsigned
-		}
-		it.F = floats[r.Intn(len(floats))]
-		if r.Chance(10) {
-			it.F = float64(int64(r.Intn(2000))-1000) / 8
-		}
+		it.U = uGen()
+		it.F = fGen()
 		items = append(items, it)
 	}
 	return items
+}
+
+var int64Bases = []int64{1 << 24, 1 << 31, 1<<31 - 3, 1 << 32, 1 << 53, -(1 << 53), 1<<53 + 1<<20, 1 << 62, 1700000000000000000,
+	math.MaxInt64 - 8, math.MinInt64, math.MinInt64 + 1<<10, -3}
+var uint64Bases = []uint64{1 << 24, 1<<32 - 3, 1 << 53, 1<<63 - 3, 1<<63 + 1<<40, math.MaxUint64 - 8, 1 << 62, 1700000000000000000}
+var float64Bases = []float64{1, -1, 0.1, 16777216, 9007199254740992, 1e300, -1e300, 4.9e-324, 0}
+
+func genInt64(r *vh.Rng, tieRange int) func() int64 {
+	switch k := r.Intn(100); {
+	case k < 55:
+		return func() int64 {
+			if r.Chance(10) {
+				return int64(r.Intn(2000000)) - 1000000
+			}
+			return int64(r.Intn(tieRange))
+		}
+	case k < 90:
+		base, spread := int64Bases[r.Intn(len(int64Bases))], 2+r.Intn(7)
+		return func() int64 { return base + int64(r.Intn(spread)) }
+	default:
+		return func() int64 { return int64(r.U64()) }
+	}
+}
+
+func genUint64(r *vh.Rng, tieRange int) func() uint64 {
+	switch k := r.Intn(100); {
+	case k < 50:
+		return func() uint64 {
+			if r.Chance(15) {
+				return r.U64() | 1<<63 // above MaxInt64: must compare unsigned
+			}
+			return uint64(r.Intn(tieRange))
+		}
+	case k < 90:
+		base, spread := uint64Bases[r.Intn(len(uint64Bases))], 2+r.Intn(7)
+		return func() uint64 { return base + uint64(r.Intn(spread)) }
+	default:
+		return func() uint64 { return r.U64() }
+	}
+}
+
+func genFloat64(r *vh.Rng) func() float64 {
+	switch k := r.Intn(100); {
+	case k < 60:
+		return func() float64 {
+			if r.Chance(10) {
+				return float64(int64(r.Intn(2000))-1000) / 8
+			}
+			return floats[r.Intn(len(floats))]
+		}
+	default: // neighbouring floats: the base and the next few representable values
+		base, spread := float64Bases[r.Intn(len(float64Bases))], 2+r.Intn(5)
+		return func() float64 {
+			f := base
+			for k := r.Intn(spread); k > 0; k-- {
+				f = math.Nextafter(f, math.Inf(1))
+			}
+			return f
+		}
+	}
 }
 
 var filterTexts = []string{"can", "CAN man", "\"so ban\"", "  ", "an", "x\"y z", "\"\"", "a \"\" b", "zed", "\"x y\" jan", "b", "nomatch", "\t", "ab\"", "\"so ban", "n\"o\"t",
@@ -286,6 +344,20 @@ func genCase(r *vh.Rng) Case {
 		c.Origin = "walk"
 		c.K = int64(1 + r.Intn(7))
 		genFilterSort(r, c.Field, &c.Args, false)
+	}
+	if c.Kind == "page" && c.Field != "bareI" && r.Chance(6) {
+		// process-survival probe: the field functions panic; aim at each runner (plain loop, goroutines of
+		// the expensive path, batch call) of the filter and of the sort in turn
+		c.Panic = true
+		im := r.Pick(impls)
+		if r.Chance(55) {
+			c.Args.FilterText, c.Args.FilterType, c.Args.FilterFields = nil, nil, nil
+			c.Args.SortBy = pstr(r.Pick(sortAttrs) + "_" + im)
+		} else {
+			c.Args.FilterText, c.Args.FilterType = pstr(r.Pick(filterTexts)), nil
+			fs := []string{r.Pick(textAttrs) + "_" + im}
+			c.Args.FilterFields = &fs
+		}
 	}
 	if c.Field == "dualI" && r.Chance(30) {
 		// the custom FilterFuncs must work whichever resolver the switch selects
